@@ -213,6 +213,15 @@ def _sweep_lines(rnd):
     return out
 
 
+def _fill_build(u):
+    # heights: a third uniform in -10 .. 10 km, a third log-uniform magnitudes 1 cm .. 10 km of either sign (terrain, buildings),
+    # a third log-uniform 10 km .. 40 000 km (aircraft, satellites)
+    k, r = S.u_pick(u[2], [0, 1, 2, 3])
+    h = [-1e4 + 2e4 * r, 10.0 ** (-2.0 + 6.0 * r), -(10.0 ** (-2.0 + 6.0 * r)), 10.0 ** (4.0 + 3.602 * r)][k]
+    return {"lat": -90.0 + 180.0 * u[0], "lon": -180.0 + 360.0 * u[1], "h": h, "ell": S.u_ellipsoid(u[3], u[4]), "num": "float",
+            "whole": False, "defaults": 0}
+
+
 SUBCHECKS = [
     SubCheck("forward_closed_form", check_forward, strategy=forward_cases, nontrivial=_nt, classes=_classes,
              quick=4000, thorough=400000, shards_thorough=12,
@@ -229,4 +238,9 @@ SUBCHECKS = [
     SubCheck("inverse_axis_sweeps", check_inverse_from_geodetic, enumerate=S.sweeps(304, _sweep_lines, 20000, 400000), nontrivial=_nt,
              classes=_classes, shards_quick=8, shards_thorough=16,
              rule="the same sweeps through xyz2llh (closed-form xyz of the lattice point -> xyz2llh -> back, 0.02 mm)"),
+    SubCheck("forward_fill", lambda c: check_forward(dict(c, kind="float", kind2=None, defaults=False)),
+             enumerate=S.fill(313, 5, _fill_build, 60000, 1200000), nontrivial=_nt, classes=_classes, shards_quick=8, shards_thorough=16,
+             rule="low-discrepancy fill of latitude x longitude x height (uniform -10..10 km, log-uniform 1 cm..10 km of either sign, log-uniform 10..40 000 km) x ellipsoid: 60 000 / 1 200 000 points"),
+    SubCheck("inverse_fill", check_inverse_from_geodetic, enumerate=S.fill(314, 5, _fill_build, 60000, 1200000), nontrivial=_nt,
+             classes=_classes, shards_quick=8, shards_thorough=16, rule="the same fill through xyz2llh"),
 ]
